@@ -391,6 +391,61 @@ Fixpoint v_modify (p : path) (f : val -> val * option val) (v : val) : val * opt
     end
   end.
 
+(* ------------------------------------------------------------------ modify_every_existing_index *)
+(* the walk of `every x[p] f= e`: modify_existing_index plus list slices (every element of the slice, left to right,
+   stopping at the first failure).  The caller works on a private copy and discards it when the result is None. *)
+Fixpoint v_mevery (p : path) (f : val -> val * option val) (v : val) : val * option val :=
+  match p with
+  | [] => f v
+  | pe :: rest =>
+    match v with
+    | VSeq KList items d =>
+      match pe with
+      | PI z =>
+        match norm_index (length items) z with
+        | Some n => match nth_item n items with
+                    | Some e => let (e', r) := v_mevery rest f e in (VSeq KList (set_nth n e' items) d, r)
+                    | None => (v, None)
+                    end
+        | None => (v, None)
+        end
+      | PSl lo hi =>
+        let (a, b) := slice_bounds (length items) lo hi in
+        let (items', ok) := upd_range (fun e => let (e', r) := v_mevery rest f e in
+                                                (e', match r with Some _ => true | None => false end)) items a (b - a) in
+        (VSeq KList items' d, if ok then Some VNull else None)
+      | _ => (v, None)
+      end
+    | VSeq KDict items d =>
+      match key_of_pelem pe with
+      | Some k =>
+        match find_key k items with
+        | Some n => match nth_item n items with
+                    | Some e => let (e', r) := v_mevery rest f e in (VSeq KDict (set_nth n e' items) d, r)
+                    | None => (v, None)
+                    end
+        | None => match d with
+                  | Some dv => let (e', r) := v_mevery rest f dv in (VSeq KDict (items ++ [(k, e')]) d, r)
+                  | None => (v, None)
+                  end
+        end
+      | None => (v, None)
+      end
+    | VInst sid fields =>
+      match pe with
+      | PF sid' fl =>
+        if Nat.eqb sid sid' then
+          match nth_error fields fl with
+          | Some e => let (e', r) := v_mevery rest f e in (VInst sid (set_field fl e' fields), r)
+          | None => (v, None)
+          end
+        else (v, None)
+      | _ => (v, None)
+      end
+    | _ => (v, None)
+    end
+  end.
+
 (* Obj::try_pop *)
 Definition f_pop (v : val) : val * option val :=
   match v with
@@ -630,7 +685,13 @@ Inductive sstmt :=
 | SMod (dst : option (nat * path)) (x : nat) (m : lop)         (* [y[q] =] pop|remove|consume x[..]   (m is LPop/LRemove/LConsume) *)
 | SSwap (x : nat) (p : path) (y : nat) (q : path)              (* swap x[p], y[q] *)
 | SOpMod (x : nat) (p : path) (f : bop) (wrap : bool) (y : nat) (m : lop)
-| SOpDef (x : nat) (p : path) (d : val) (f : bop) (e : expr).  (* (x[p] = d) f= e : d is used when the last key is missing *)
+| SOpDef (x : nat) (p : path) (d : val) (f : bop) (e : expr)   (* (x[p] = d) f= e : d is used when the last key is missing *)
+| SEveryOp (x : nat) (p : path) (f : bop) (e : expr)
+    (* every x[p] f= e  (modify_every): e is evaluated once; every addressed element a becomes `a f e`; all or nothing:
+       when the operator raises on some element the variable keeps its old value *)
+| SAndOp (ts : list (nat * path)) (f : bop) (e : expr).
+    (* (x1[p1] and x2[p2] and ..) f= e : all old values are read first, e is evaluated once, then every target in turn is
+       dropped, combined with (a copy of) e's value and assigned; a failure stops there (earlier targets stay updated) *)
     (* x[p] f= M   or   x[p] f= [M]   where M is pop|remove|consume y[..]: a right-hand side that mutates (possibly
        the target itself: `q ++= [pop q]`).  The old value of x[p] is read before M runs. *)
 
@@ -643,6 +704,35 @@ Definition assign_to (st : state) (every : bool) (x : nat) (p : path) (w : val) 
   match nth_error st x with
   | Some v => let (v', ok) := v_set every p (Some w) v in (set_var st x v', ok)
   | None => (st, false)
+  end.
+
+(* the element function of `every x[p] f= w` *)
+Definition every_leaf (f : bop) (w : val) (a : val) : val * option val :=
+  match bop_apply f a w with Some r => (r, Some VNull) | None => (VNull, None) end.
+
+(* the old values of the targets of an and-pattern, in order *)
+Fixpoint read_all (st : state) (ts : list (nat * path)) : option (list val) :=
+  match ts with
+  | [] => Some []
+  | (x, p) :: tl =>
+    match nth_error st x with
+    | None => None
+    | Some v => match v_get v p with
+                | None => None
+                | Some old => match read_all st tl with Some olds => Some (old :: olds) | None => None end
+                end
+    end
+  end.
+
+Fixpoint and_loop (f : bop) (w : val) (st : state) (l : list ((nat * path) * val)) : state * bool :=
+  match l with
+  | [] => (st, true)
+  | ((x, p), old) :: tl =>
+    match nth_error st x with
+    | None => (st, false)
+    | Some v => let (v', ok) := v_opassign_old p f old w v in
+                if ok then and_loop f w (set_var st x v') tl else (set_var st x v', false)
+    end
   end.
 
 Definition exec_s (st : state) (s : sstmt) : state * bool :=
@@ -720,6 +810,26 @@ Definition exec_s (st : state) (s : sstmt) : state * bool :=
         | None => (st, false)
         | Some w => let (v', ok) := v_opassign_old p f old w v in (set_var st x v', ok)
         end
+      end
+    end
+  | SEveryOp x p f e =>
+    match eval st e with
+    | None => (st, false)
+    | Some w =>
+      match nth_error st x with
+      | None => (st, false)
+      | Some v =>
+        let (v', r) := v_mevery p (every_leaf f w) v in
+        match r with Some _ => (set_var st x v', true) | None => (st, false) end
+      end
+    end
+  | SAndOp ts f e =>
+    match read_all st ts with
+    | None => (st, false)
+    | Some olds =>
+      match eval st e with
+      | None => (st, false)
+      | Some w => and_loop f w st (combine ts olds)
       end
     end
   end.
